@@ -106,7 +106,8 @@ theorem geometric_loop (l : List ℝ) (k : ℕ) (s : ℝ) :
       LoopR.done.injEq, Prod.mk.injEq]
     refine ⟨?_, ?_⟩ <;> (push_cast; ring)
 
-/-- `harmonic_mean` loop without negative entries: count and running `Σ 1/x` -/
+/-- `harmonic_mean` loop without negative entries: count and running `Σ 1/x`
+    (the code adds `1 / |x|`; on the entries that pass the `x < 0` early return `|x| = x`) -/
 theorem harmonic_loop (l : List ℝ) (k : ℕ) (s : ℝ) (h : ∀ x ∈ l, ¬ x < 0) :
     IterStatistics.harmonic_mean.loop1 l (k : ℝ) s
       = LoopR.done (((k + l.length : ℕ) : ℝ), s + (l.map (fun x => 1 / x)).sum) := by
@@ -117,7 +118,9 @@ theorem harmonic_loop (l : List ℝ) (k : ℕ) (s : ℝ) (h : ∀ x ∈ l, ¬ x 
     have hk : (k : ℝ) + (1.0 : ℝ) = ((k + 1 : ℕ) : ℝ) := by push_cast; norm_num
     have ha : ¬ a < (0.0 : ℝ) := by rw [lit_zero]; exact h a (by simp)
     have ht : ∀ x ∈ t, ¬ x < 0 := fun x hx => h x (by simp [hx])
-    simp only [ha, if_false, hk]
+    have haa : RFun.abs a = a := by
+      rw [rfun_abs]; exact abs_of_nonneg (not_lt.1 (h a (by simp)))
+    simp only [ha, if_false, hk, haa]
     rw [ih _ _ ht]
     simp only [lit_one, List.length_cons, List.map_cons, List.sum_cons,
       LoopR.done.injEq, Prod.mk.injEq]
